@@ -547,6 +547,34 @@ def rule_ident_range(prog):
                 ok = rp.endswith(".range") and rp.startswith("token#")
         n += 1
         out.add("features::DocumentCursor::ident", "Ident.range is the byte range of the token under the cursor", ok, c.loc(cur[0]["sp"]), "")
+    # the range of an Identifier node is the range of the identifier *token*: the token parser skips the comments in front of the
+    # token, so `info(..)` around it must be entered only after those comments were consumed
+    fc = prog.front
+    comments = roles.comment_parsers(prog)
+    idp = [b for b in fc.bodies if b["d"].endswith("<ast::Identifier as parser::Parser>::parse")]
+    if not idp:
+        out.missing("<Identifier as Parser>::parse")
+    else:
+        INFO = "spl_frontend::parser::utility::info"
+        ok = None
+        for x, parents in hir.walk(idp[0]["body"]):
+            if x.get("k") == "Call" and (hir.callee(x) or "") == INFO:
+                ok = False
+                for pr in parents:
+                    if pr.get("k") == "Call" and last(hir.callee(pr) or "") in ("preceded", "pair", "tuple") and pr["args"]:
+                        first = hir.strip(pr["args"][0])
+                        if last(hir.callee(pr) or "") == "tuple":
+                            es = first.get("es", [])
+                            first = hir.strip(es[0]) if es else {}
+                        if first.get("k") == "Call" and (hir.callee(first) or "").endswith("multi::many0") and first["args"] and \
+                                ((hir.path_def(hir.strip(first["args"][0])) or {}).get("rp") or (hir.path_def(hir.strip(first["args"][0])) or {}).get("p")) in comments \
+                                and not any(a_ is x for a_ in [pr["args"][0]]):
+                            ok = True
+        n += 1
+        out.add("<Identifier as Parser>::parse", "the range of an identifier does not include the comments in front of it", ok, fc.loc(idp[0]["sp"]),
+                "`info(literals::ident)`: the token parser skips comments *inside* the info wrapper, so the identifier's range starts at a "
+                "comment written in front of it; every feature that answers with the range of a name (go-to, references, rename edits, "
+                "hover) then marks - and rename overwrites - the comment too", ("identexact",))
     if n < 2:
         out.missing("identifier range producers (found %d)" % n)
     return out
